@@ -258,8 +258,8 @@ output:
 %s""" % (d, REPO, REPO, REPO, REPO, ALL_LANGUAGES))
     modes = ["files", "schemas+canon"] + ["context:%s+canon" % l for l in LANGS]
     recipes.append({"name": "clean", "cfg": clean, "modes": modes, "site": "-", "expect": "deterministic"})
-    # the same pipeline, IR exactly as `cog inspect` prints it: package order comes from Consolidate
-    recipes.append({"name": "known-consolidate", "cfg": clean, "modes": ["schemas"], "expect": "known",
+    # the same pipeline, IR exactly as `cog inspect` prints it (package order comes from Consolidate)
+    recipes.append({"name": "fixed-consolidate", "cfg": clean, "modes": ["schemas"], "expect": "deterministic",
                     "site": "internal/codegen/pipeline.go:Pipeline.LoadSchemas"})
 
     # ---- one output kind at a time (types only / builders without converters), single language each
@@ -272,8 +272,8 @@ output:
     body = open(clean).read().replace("  builders: true\n", "").replace("  converters: true\n", "").replace("  api_reference: true\n", "")
     recipes.append({"name": "clean-types-only", "cfg": cfg("clean-types-only", body), "modes": ["files"], "site": "-", "expect": "deterministic"})
 
-    # ---- known: two candidate discriminator fields
-    d = os.path.join(root, "known-infer")
+    # ---- repaired site (regression recipe): two candidate discriminator fields
+    d = os.path.join(root, "fixed-infer")
     _write(os.path.join(d, "infer.json"), json.dumps({
         "$schema": "http://json-schema.org/draft-07/schema#", "$ref": "#/definitions/Root",
         "definitions": {
@@ -281,10 +281,10 @@ output:
             "Cat": {"type": "object", "required": ["kind", "type"], "properties": {"kind": {"const": "cat"}, "type": {"const": "feline"}, "lives": {"type": "integer"}}},
             "Dog": {"type": "object", "required": ["kind", "type"], "properties": {"kind": {"const": "dog"}, "type": {"const": "canine"}, "good": {"type": "boolean"}}},
         }}, indent=1))
-    recipes.append({"name": "known-infer", "expect": "known",
+    recipes.append({"name": "fixed-infer", "expect": "deterministic",
                     "site": "internal/ast/compiler/disjunctions_infer_mapping.go:DisjunctionInferMapping.inferDiscriminatorField",
                     "modes": ["files", "context:go"],
-                    "cfg": cfg("known-infer", """inputs:
+                    "cfg": cfg("fixed-infer", """inputs:
   - jsonschema:
       path: '%s/infer.json'
       package: infer
@@ -301,15 +301,15 @@ output:
         generate_json_marshaller: true
 """ % d)})
 
-    # ---- known: nested parameters
-    recipes.append({"name": "known-interpolate", "expect": "known", "site": "internal/codegen/pipeline.go:Pipeline.interpolate",
+    # ---- repaired site (regression recipe): nested parameters
+    recipes.append({"name": "fixed-interpolate", "expect": "deterministic", "site": "internal/codegen/pipeline.go:Pipeline.interpolate",
                     "modes": ["config"],
-                    "cfg": cfg("known-interpolate", """parameters:
+                    "cfg": cfg("fixed-interpolate", """parameters:
   a: '%%b%%'
   b: 'x'
 inputs:
   - jsonschema:
-      path: '%s/known-infer/infer.json'
+      path: '%s/fixed-infer/infer.json'
       package: 'p%%a%%'
 output:
   directory: 'out/%%a%%/%%l'
@@ -319,16 +319,16 @@ output:
         package_root: 'example.com/gen'
 """ % root)})
 
-    # ---- known: typescript prints a map default in map order
-    d = os.path.join(root, "known-tsmap")
+    # ---- repaired site (regression recipe): typescript prints a map default in map order
+    d = os.path.join(root, "fixed-tsmap")
     _write(os.path.join(d, "s.json"), json.dumps({
         "$schema": "http://json-schema.org/draft-07/schema#", "$ref": "#/definitions/Root",
         "definitions": {"Root": {"type": "object", "properties": {
             "labels": {"type": "object", "additionalProperties": {"type": "string"}}, "name": {"type": "string"}}}}}, indent=1))
     _write(os.path.join(d, "passes.yaml"), "passes:\n  - fields_set_default:\n      defaults:\n        tsmap.Root.labels: {team: a, env: b, zone: c}\n")
-    recipes.append({"name": "known-tsmap", "expect": "known", "site": "internal/jennies/typescript/tools.go:formatValue",
+    recipes.append({"name": "fixed-tsmap", "expect": "deterministic", "site": "internal/jennies/typescript/tools.go:formatValue",
                     "modes": ["files"],
-                    "cfg": cfg("known-tsmap", """inputs:
+                    "cfg": cfg("fixed-tsmap", """inputs:
   - jsonschema:
       path: '%s/s.json'
       package: tsmap
@@ -357,8 +357,8 @@ output:
   languages:
 %s""" % (d, d, ALL_LANGUAGES.replace("    - typescript: {}\n", "")))})
 
-    # ---- known: converter with two list-of-disjunction options
-    d = os.path.join(root, "known-converter")
+    # ---- repaired site (regression recipe): converter with two list-of-disjunction options
+    d = os.path.join(root, "fixed-converter")
     items = {"type": "array", "items": {"oneOf": [{"$ref": "#/definitions/Cat"}, {"$ref": "#/definitions/Dog"}]}}
     _write(os.path.join(d, "s.json"), json.dumps({
         "$schema": "http://json-schema.org/draft-07/schema#", "$ref": "#/definitions/Root",
@@ -379,9 +379,9 @@ options:
   - disjunction_as_options:
       by_name: Root.itemsB
 """)
-    recipes.append({"name": "known-converter", "expect": "known", "site": "internal/languages/converter.go:ConverterGenerator.FromBuilder",
+    recipes.append({"name": "fixed-converter", "expect": "deterministic", "site": "internal/languages/converter.go:ConverterGenerator.FromBuilder",
                     "modes": ["files"],
-                    "cfg": cfg("known-converter", """inputs:
+                    "cfg": cfg("fixed-converter", """inputs:
   - jsonschema:
       path: '%s/s.json'
       package: conv
@@ -398,14 +398,14 @@ output:
         package_root: 'example.com/gen'
 """ % (d, d))})
 
-    # ---- known: two library import paths both contained in the file name of the schema
-    d = os.path.join(root, "known-refresolver")
+    # ---- repaired site (regression recipe): two library import paths both contained in the file name of the schema
+    d = os.path.join(root, "fixed-refresolver")
     _write(os.path.join(d, "main", "main.cue"), "package main\n\nRoot: {\n\tname: string\n\titems: [...#Local]\n}\n\n#Local: {\n\tlabel: string\n}\n")
     _write(os.path.join(d, "l1", "l1.cue"), "package l1\n#A: {x: string}\n")
     _write(os.path.join(d, "l2", "l2.cue"), "package l2\n#B: {y: string}\n")
-    recipes.append({"name": "known-refresolver", "expect": "known", "site": "internal/simplecue/referenceresolver.go:referenceResolver.packageForToken",
+    recipes.append({"name": "fixed-refresolver", "expect": "deterministic", "site": "internal/simplecue/referenceresolver.go:referenceResolver.packageForToken",
                     "modes": ["schemas"],
-                    "cfg": cfg("known-refresolver", """inputs:
+                    "cfg": cfg("fixed-refresolver", """inputs:
   - cue:
       entrypoint: '%s/main'
       cue_imports:
@@ -418,6 +418,85 @@ output:
     - go:
         package_root: 'example.com/gen'
 """ % (d, d, d))})
+    # ---- parameters defined in terms of other parameters, through the public option
+    #      codegen.PipelineFromFile(file, codegen.Parameters(extra)) as `cog generate/inspect` do.
+    #      Chains of 1..3 hops, going to alphabetically smaller and larger keys, in the file and
+    #      in the extra map; what is observed is the interpolated configuration.
+    chains = {
+        "down2": ("output_dir: '%build_dir%/generated'\n  build_dir: '%__config_dir%/build'\n", ""),
+        "up2": ("a_out: '%m_mid%/generated'\n  m_mid: '%z_root%/build'\n  z_root: '/abs'\n", ""),
+        "mixed3": ("output_dir: '%stage%/generated'\n  stage: '%build_dir%/stage'\n  build_dir: '%__config_dir%/build'\n  aaa: '%output_dir%/a'\n  zzz: '%aaa%/z'\n", ""),
+        "extra-over-file": ("output_dir: '%build_dir%/generated'\n  build_dir: 'file-build'\n", "build_dir:%__config_dir%/cli-build,extra_dir:%output_dir%/extra"),
+        "self-and-cycle": ("output_dir: '%output_dir%/x'\n  p: '%q%'\n  q: '%p%'\n  build_dir: '%p%/%q%'\n", ""),
+    }
+    for cname, (params, extra) in chains.items():
+        first = params.split(":")[0].strip()
+        body = """parameters:
+  %sinputs:
+  - jsonschema:
+      path: '%s/fixed-infer/infer.json'
+      package: 'pkg'
+      transformations:
+        - '%%%s%%/passes.yaml'
+output:
+  directory: '%%%s%%/%%l'
+  repository_templates: '%%%s%%/templates'
+  templates_data:
+    First: '%%%s%%'
+    Config: '%%__config_dir%%'
+    All: '%s'
+  types: true
+  languages:
+    - typescript: {}
+""" % (params, root, first, first, first, first, " ".join("%%%s%%" % l.split(":")[0].strip() for l in params.strip().split("\n")))
+        r = {"name": "params-" + cname, "expect": "deterministic", "site": "internal/codegen/options.go:Parameters",
+             "modes": ["config"], "cfg": cfg("params-" + cname, body)}
+        if extra:
+            r["params"] = extra
+        recipes.append(r)
+    # and one of them all the way through Run: the output paths contain the interpolated directory
+    recipes.append({"name": "params-down2-run", "expect": "deterministic", "site": "internal/codegen/options.go:Parameters", "modes": ["files"],
+                    "cfg": cfg("params-down2-run", """parameters:
+  output_dir: '%%build_dir%%/generated'
+  build_dir: '%%__config_dir%%/build'
+inputs:
+  - jsonschema:
+      path: '%s/fixed-infer/infer.json'
+      package: 'pkg'
+output:
+  directory: '%%output_dir%%/%%l'
+  types: true
+  languages:
+    - typescript: {}
+""" % root)})
+
+    # ---- a discriminator mapping in which two values point to the same schema (legal OpenAPI):
+    #      anything that orders the mapping by its *targets* has ties
+    d = os.path.join(root, "shared-discriminator-target")
+    _write(os.path.join(d, "pets.json"), json.dumps({
+        "openapi": "3.0.0", "info": {"title": "pets", "version": "1"}, "paths": {},
+        "components": {"schemas": {
+            "Owner": {"type": "object", "properties": {"pet": {"$ref": "#/components/schemas/Pet"}}},
+            "Pet": {"oneOf": [{"$ref": "#/components/schemas/Cat"}, {"$ref": "#/components/schemas/Dog"}, {"$ref": "#/components/schemas/Bird"}],
+                    "discriminator": {"propertyName": "kind", "mapping": {"cat": "Cat", "kitten": "Cat", "dog": "Dog", "puppy": "Dog", "hound": "Dog", "bird": "Bird"}}},
+            "Cat": {"type": "object", "required": ["kind"], "properties": {"kind": {"type": "string"}, "lives": {"type": "integer"}}},
+            "Dog": {"type": "object", "required": ["kind"], "properties": {"kind": {"type": "string"}, "good": {"type": "boolean"}}},
+            "Bird": {"type": "object", "required": ["kind"], "properties": {"kind": {"type": "string"}, "wings": {"type": "integer"}}},
+        }}}, indent=1))
+    recipes.append({"name": "shared-discriminator-target", "expect": "deterministic", "site": "-",
+                    "modes": ["files", "context:python+canon", "context:go+canon"],
+                    "cfg": cfg("shared-discriminator-target", """inputs:
+  - openapi:
+      path: '%s/pets.json'
+      package: pets
+output:
+  directory: 'out/%%l'
+  types: true
+  builders: true
+  converters: true
+  api_reference: true
+  languages:
+%s""" % (d, ALL_LANGUAGES))})
     return recipes
 
 
